@@ -40,6 +40,10 @@ def main():
     caught = missed = regress = 0
     with cf.ThreadPoolExecutor(jobs if not allc else max(1, jobs // 2)) as ex:
         for name, meta, prop, res in ex.map(one, names):
+            if "apply_err" in res:
+                print(f"{name:7s} APPLY-FAIL (run tools/rebase_diffs.py): {res['apply_err'].strip().splitlines()[-1][:100]}")
+                regress += 1
+                continue
             own = prop in res and res[prop].get("rc") == 1 and bool(res[prop].get("violated"))
             was = meta.get("detection", {}).get("own_property_check_flags_it")
             errs = [k for k, v in res.items() if v.get("rc") not in (0, 1)]
